@@ -73,7 +73,7 @@ def payload_items(v):
     """bytes-like / str-like -> (items, length)"""
     if type(v) is SymStr:
         v = v.data
-    if type(v) is str:
+    if isinstance(v, str):
         v = v.encode("utf-8")
     if type(v) is SymBytes:
         return list(v.items), v.sym_len()
